@@ -206,6 +206,6 @@ def run(ctx):
                 check_x25519_dh(rep, facts, a)
     n = check_dh_call_sites(rep, facts)
     nk = len(facts.impls_of('kem::Kem'))
-    rep.floor('R10.2', 'DhKeyExchange::dh call sites (4 per KEM)', n, 4 * max(nk, 1))
+    rep.floor('R10.2', 'DhKeyExchange::dh call sites (4 per KEM)', n, 4 * nk)
     check_setup_errors(rep, facts)
     rep.bodies_analysed = len(facts.body_list)
